@@ -18,14 +18,14 @@ import (
 )
 
 type plan struct {
-	Cut        int    // 0: none; i in 1..4: message i is dropped and the stream is closed
-	DialFail   bool   // DialStream fails
-	Write1Fail bool   // the stream is dead when the renter writes its request
+	Cut            int    // 0: none; i in 1..4: message i is dropped and the stream is closed
+	DialFail       bool   // DialStream fails
+	Write1Fail     bool   // the stream is dead when the renter writes its request
 	T1, T2, T3, T4 string // rewriting of message i
 }
 
 type wire struct {
-	id             types.Specifier
+	id              types.Specifier
 	req, r1, r2, r3 proto4.Object
 }
 
@@ -119,8 +119,8 @@ type mitm struct {
 	tamper  func(stage int, name string, wr *wire) // rewrites wr.req / r1 / r2 / r3 in place
 
 	mu        sync.Mutex
-	dialed    int  // DialStream calls by the renter
-	hostConns int  // streams opened to the host
+	dialed    int           // DialStream calls by the renter
+	hostConns int           // streams opened to the host
 	cliReq    proto4.Object // request as the renter wrote it
 	fwdReq    proto4.Object // request as forwarded to the host (nil: none)
 	dlvR1     proto4.Object // host inputs as delivered to the renter
